@@ -423,14 +423,58 @@ def run(R):
     p = lcfg.find_path(starts, [lcfg.exit], N, cut_nodes=rt)
     R.check(p is None, "C13.LAZY", lw.qualname + ":refresh-always", R.site(lw),
             "after a successful recomputation the refresh time is always written", "a recomputation can finish without writing the refresh time (the body runs on every call)")
-    # recompute test: refresh_time == 0 or (ttl != 0 and refresh_time < utime() - ttl)
-    ifs = [s for s in lw.node.body if isinstance(s, ast.If)]
-    R.need(len(ifs) == 1, "idiom: alazy_constant wrapper is not a single recompute test")
-    t = q.src(ifs[0].test)
-    okt = t.replace("(", "").replace(")", "") == "wrapper.alazy_constant_refresh_time == 0 or ttl != 0 and wrapper.alazy_constant_refresh_time < utime - ttl".replace("utime", "utime")
-    okt = okt or (t == "wrapper.alazy_constant_refresh_time == 0 or (ttl != 0 and wrapper.alazy_constant_refresh_time < utime() - ttl)")
-    R.check(okt, "C13.LAZY", lw.qualname + ":test", R.site(lw, ifs[0]),
-            "recompute iff never computed/dirty (refresh time 0) or ttl set and expired", "the recompute test is `%s`" % t)
+    # recompute test, decided on paths: the cached value may be returned without recomputing only if
+    #   (a) the refresh time is not the never-computed/dirty sentinel 0, and
+    #   (b) ttl is 0 or the refresh time is not older than utime() - ttl
+    ret_nodes = [n for n in lcfg.nodes if n.kind == "stmt" and isinstance(n.ast, ast.Return)]
+    RT = "wrapper.alazy_constant_refresh_time"
+
+    def not_sentinel(nd):
+        if nd.kind != "test":
+            return None
+        k, s_, pos = q.atom_test(nd.ast)
+        if k == "eq" and set(s_) == set(["0", RT]):
+            return "F" if pos else "T"
+        if k == "truth" and s_ == RT:
+            return "T" if pos else "F"
+        return None
+    p = lcfg.find_path([lcfg.entry], ret_nodes, N, cut_nodes=[yn],
+                       keep_edge=lambda e: not (not_sentinel(lcfg.nodes[e.src]) is not None and e.label == not_sentinel(lcfg.nodes[e.src])))
+    R.check(p is None, "C13.LAZY", lw.qualname + ":sentinel", R.site(lw),
+            "the cached value is returned without recomputation only when the refresh time is not the never-computed/dirty sentinel (0), whatever ttl is",
+            "the cached value can be returned although the refresh time is still the sentinel 0 (never computed, or dirty() was called): for a ttl for which "
+            "'utime() - ttl' is not positive the body never runs - the first call returns None and dirty() has no effect", lcfg.fmt_path(p) if p else None)
+
+    def fresh(nd):
+        """edge meaning: ttl is zero, or the value is not expired"""
+        if nd.kind != "test":
+            return None
+        k, s_, pos = q.atom_test(nd.ast)
+        if k == "eq" and set(s_) == set(["0", "ttl"]):
+            return "T" if pos else "F"
+        if k == "truth" and s_ == "ttl":
+            return "F" if pos else "T"
+        if k == "lt" and s_ == (RT, "utime() - ttl"):        # expired
+            return "F" if pos else "T"
+        if k == "lt" and s_ == ("utime() - ttl", RT):
+            return "T" if pos else "F"
+        return None
+    p = lcfg.find_path([lcfg.entry], ret_nodes, N, cut_nodes=[yn],
+                       keep_edge=lambda e: not (fresh(lcfg.nodes[e.src]) is not None and e.label == fresh(lcfg.nodes[e.src])))
+    R.check(p is None, "C13.LAZY", lw.qualname + ":ttl", R.site(lw),
+            "without recomputation the cached value is returned only if ttl is 0 or the value has not expired",
+            "an expired value can be returned without recomputation", lcfg.fmt_path(p) if p else None)
+    # and a value that is neither dirty nor expired is not recomputed (exactly one recomputation)
+    def stale(nd):
+        a, b = not_sentinel(nd), fresh(nd)
+        if a is not None:
+            return "F" if a == "T" else "T"
+        if b is not None:
+            return "F" if b == "T" else "T"
+        return None
+    p = kit.path_avoiding_guard(lcfg, [yn], stale, N)
+    R.check(p is None, "C13.LAZY", lw.qualname + ":no-spurious", R.site(lw),
+            "the body runs only when the value is dirty/never computed or expired", "the body can run although the cached value is fresh", lcfg.fmt_path(p) if p else None)
     rets = [q.src(n.value) for n in q.scope_nodes(lw.node) if isinstance(n, ast.Return)]
     R.check(rets == ["wrapper.alazy_constant_cached_value"], "C13.LAZY", lw.qualname + ":returns", R.site(lw), "the cached value is returned", "returns %s" % rets)
     d = repo.fn("tools.alazy_constant.decorator.dirty")
